@@ -169,9 +169,14 @@ pub fn bars_case(assign: &[BarKind; 6], command: u16) -> Vec<(String, String)> {
     let mut out = vec![];
     match crate::util::catch(|| root.bars(DF)) {
         Err(p) => out.push(("bars-panic".into(), p)),
+        // A 64-bit type encoding in the last slot has no upper half: an error is the right answer,
+        // and the configuration must be left as it was all the same.
+        Ok(Err(_)) if matches!(assign[5], BarKind::Mem64 { .. }) => {}
         Ok(Err(e)) => out.push(("bars-error".into(), format!("bars() failed with {:?} on {:?}", e, assign))),
         Ok(Ok(g)) => {
-            if g != want {
+            if matches!(assign[5], BarKind::Mem64 { .. }) {
+                out.push(("bars-accepts-invalid".into(), format!("bars() succeeded on {:?} although slot 5 has the 64-bit type encoding (no upper half exists)", assign)));
+            } else if g != want {
                 out.push(("bars-value".into(), format!("bars() on {:?} returned {:x?}, ground truth {:x?}", assign, g, want)));
             }
         }
